@@ -43,11 +43,8 @@ def add_defines(rng, lines):
 # characters that str.splitlines() / universal-newline readers take for a line end.  The configuration grammar does not: a line
 # ends at '\n' and nowhere else, so in the middle of a line they are ordinary text (white space to strip()/split(), else data)
 MIDLINE = ["\r"] * 5 + ["\x0b", "\x0c", "\x1c", "\x1d", "\x1e", "\x85", "\u2028", "\u2029"]
-# inside VALUES the three information separators are left out: CPython's int() / float() do not strip U+001C..U+001F although
-# str.strip() does, while the model's number parser strips everything str.isspace() holds for (a matter of the datatype model,
-# C09's domain - '1\x1ch' as a time-interval is refused by the library and accepted by the model - not of inclusion); they still
-# occur next to the blank between key and value and in comments
-MIDLINE_IN_VALUE = [c for c in MIDLINE if c not in "\x1c\x1d\x1e"]
+# (the information separators U+001C..U+001E occur inside VALUES too: str.strip() removes them, int() / float() do not - the
+# number model says so since `intSpace` / the generated table `intSpaceExcluded`: '1\x1ch' as a time-interval is refused by both)
 _KV = re.compile(r"^(\s*)([^\s<%#]\S*)([ \t]+)(\S(?:.*\S)?)(\s*)$")
 
 
@@ -68,7 +65,6 @@ def add_midline_line_ends(rng, lines, p=0.35, kinds=("value", "value", "separato
         if kind in ("value", "separator") and not kvs:
             kind = "comment"
         if kind == "value":
-            ch = rng.choice(MIDLINE_IN_VALUE)
             i = rng.choice(kvs)
             ind, key, sep, val, tail = _KV.match(out[i]).groups()
             at = rng.randint(1, len(val) - 1) if len(val) > 1 else rng.choice([0, 1])
